@@ -541,3 +541,20 @@ V("adv-class-level-write-in-reader", "C01", HX, "    def get_node(self, node_has
 V("adv-class-level-memo-read", "C01", HX, "    def get_node(self, node_hash):\n", "    def get_node(self, node_hash):\n        if HexaryTrie._memo.get(node_hash) is not None:\n            return HexaryTrie._memo[node_hash]\n", rule="RSRC",
   edits=[(HX, "    def get_node(self, node_hash):\n", "    def get_node(self, node_hash):\n        if HexaryTrie._memo.get(node_hash) is not None:\n            return HexaryTrie._memo[node_hash]\n"),
          (HX, "class HexaryTrie:\n", "class HexaryTrie:\n    _memo = {}\n")])
+
+# loop spellings that used to be refused (benign binaryb-5, hexaryb-6, smtb-5) and wrong versions of them
+_CPL_OLD = "    for idx, (left_nibble, right_nibble) in enumerate(zip(left_key, right_key)):\n        if left_nibble != right_nibble:\n            return idx\n    return min(len(left_key), len(right_key))\n"
+_CPL_COUNTER = "    idx = 0\n    for pair in zip(left_key, right_key):\n        if pair[0] != pair[1]:\n            break\n        idx += 1\n    else:\n        return min(len(left_key), len(right_key))\n    return idx\n"
+V("silent-common-prefix-counter", "C01", "trie/utils/nodes.py", _CPL_OLD, _CPL_COUNTER, expect="silent", props=["C01", "C08", "C12"])
+V("c01-common-prefix-counter-starts-at-one", "C01", "trie/utils/nodes.py", _CPL_OLD, _CPL_COUNTER.replace("    idx = 0\n", "    idx = 1\n"), expect="inconclusive")
+_SCAN_OLD = "            for bit in reversed(range(self._branch_size)):\n                if path_diff & (1 << bit) > 0:\n                    branch_point = (self._branch_size - 1) - bit\n                    break\n"
+_SCAN_WHILE = "            bit = self._branch_size - 1\n            while bit >= 0:\n                if path_diff & (1 << bit) > 0:\n                    branch_point = (self._branch_size - 1) - bit\n                    break\n                bit -= 1\n"
+V("silent-bit-scan-counting-while", "C15", SM, _SCAN_OLD, _SCAN_WHILE, expect="silent", props=["C15", "C14"])
+V("c15-bit-scan-counting-while-from-lsb", "C15", SM, _SCAN_OLD, "            bit = 0\n            while bit < self._branch_size:\n                if path_diff & (1 << bit) > 0:\n                    branch_point = (self._branch_size - 1) - bit\n                    break\n                bit += 1\n", rule="EFF5")
+V("c15-bit-scan-counting-while-skips-msb", "C15", SM, _SCAN_OLD, _SCAN_WHILE.replace("bit = self._branch_size - 1\n", "bit = self._branch_size - 2\n"), rule="EFF5")
+_TRAV_OLD = '    def _traverse_from(\n        self, node: RawHexaryNode, trie_key\n    ) -> Tuple[RawHexaryNode, Nibbles]:\n        """\n        Traverse down the trie from the given node, using the trie_key to navigate.\n\n        At each node, consume a prefix from the key, and navigate to its child. Repeat\n        with that child node and so on, until:\n        - there is no key remaining, or\n        - the child node is a blank node, or\n        - the child node is a leaf node\n\n        :return: (the deepest child node, the unconsumed suffix of the key)\n        :raises MissingTraversalNode: if a node body is missing from the database\n        """\n        remaining_key = trie_key\n        while remaining_key:\n            node_type = get_node_type(node)\n\n            if node_type == NODE_TYPE_BLANK:\n                return BLANK_NODE, ()  # type: ignore # mypy thinks BLANK_NODE != b\'\'\n            elif node_type == NODE_TYPE_LEAF:\n                leaf_key = extract_key(node)\n                if key_starts_with(leaf_key, remaining_key):\n                    return node, remaining_key\n                else:\n                    # The trie key and leaf node key branch away from each other, so\n                    # there is no node at the specified key.\n                    return BLANK_NODE, ()  # type: ignore # mypy thinks BLANK_NODE != b\'\' # noqa: E501\n            elif node_type == NODE_TYPE_EXTENSION:\n                try:\n                    next_node_pointer, remaining_key = self._traverse_extension(\n                        node, remaining_key\n                    )\n                except _PartialTraversal:\n                    # could only descend part-way into an extension node\n                    return node, remaining_key\n            elif node_type == NODE_TYPE_BRANCH:\n                next_node_pointer = node[remaining_key[0]]\n                remaining_key = remaining_key[1:]\n            else:\n                raise Exception("Invariant: This shouldn\'t ever happen")\n\n            try:\n                node = self.get_node(next_node_pointer)\n            except KeyError as exc:\n                used_key = trie_key[: len(trie_key) - len(remaining_key)]\n\n                raise MissingTraversalNode(exc.args[0], used_key)\n\n        # navigated down the full key\n        return node, Nibbles(())\n\n'
+_TRAV_MACHINE = '    def _traverse_from(\n        self, node: RawHexaryNode, trie_key\n    ) -> Tuple[RawHexaryNode, Nibbles]:\n        """\n        Traverse down the trie from the given node, using the trie_key to navigate.\n\n        At each node, consume a prefix from the key, and navigate to its child. Repeat\n        with that child node and so on, until:\n        - there is no key remaining, or\n        - the child node is a blank node, or\n        - the child node is a leaf node\n\n        :return: (the deepest child node, the unconsumed suffix of the key)\n        :raises MissingTraversalNode: if a node body is missing from the database\n        """\n        remaining_key = trie_key\n        while True:\n            if len(remaining_key) == 0:\n                # navigated down the full key\n                return node, Nibbles(())\n\n            node_type = get_node_type(node)\n\n            if node_type == NODE_TYPE_BRANCH:\n                next_node_pointer = node[remaining_key[0]]\n                remaining_key = remaining_key[1:]\n            elif node_type == NODE_TYPE_EXTENSION:\n                try:\n                    next_node_pointer, remaining_key = self._traverse_extension(\n                        node, remaining_key\n                    )\n                except _PartialTraversal:\n                    # could only descend part-way into an extension node\n                    return node, remaining_key\n            elif node_type == NODE_TYPE_LEAF:\n                leaf_key = extract_key(node)\n                if not key_starts_with(leaf_key, remaining_key):\n                    # The trie key and leaf node key branch away from each other, so\n                    # there is no node at the specified key.\n                    return BLANK_NODE, ()  # type: ignore # mypy thinks BLANK_NODE != b\'\' # noqa: E501\n                return node, remaining_key\n            elif node_type == NODE_TYPE_BLANK:\n                return BLANK_NODE, ()  # type: ignore # mypy thinks BLANK_NODE != b\'\'\n            else:\n                raise Exception("Invariant: This shouldn\'t ever happen")\n\n            try:\n                node = self.get_node(next_node_pointer)\n            except KeyError as exc:\n                used_key = trie_key[: len(trie_key) - len(remaining_key)]\n\n                raise MissingTraversalNode(exc.args[0], used_key)\n\n'
+V("silent-traverse-from-while-true", "C08", HX, _TRAV_OLD, _TRAV_MACHINE, expect="silent", props=["C08", "C01", "C07"])
+V("c08-traverse-from-while-true-skips-two", "C08", HX, _TRAV_OLD, '    def _traverse_from(\n        self, node: RawHexaryNode, trie_key\n    ) -> Tuple[RawHexaryNode, Nibbles]:\n        """\n        Traverse down the trie from the given node, using the trie_key to navigate.\n\n        At each node, consume a prefix from the key, and navigate to its child. Repeat\n        with that child node and so on, until:\n        - there is no key remaining, or\n        - the child node is a blank node, or\n        - the child node is a leaf node\n\n        :return: (the deepest child node, the unconsumed suffix of the key)\n        :raises MissingTraversalNode: if a node body is missing from the database\n        """\n        remaining_key = trie_key\n        while True:\n            if len(remaining_key) == 0:\n                # navigated down the full key\n                return node, Nibbles(())\n\n            node_type = get_node_type(node)\n\n            if node_type == NODE_TYPE_BRANCH:\n                next_node_pointer = node[remaining_key[0]]\n                remaining_key = remaining_key[2:]\n            elif node_type == NODE_TYPE_EXTENSION:\n                try:\n                    next_node_pointer, remaining_key = self._traverse_extension(\n                        node, remaining_key\n                    )\n                except _PartialTraversal:\n                    # could only descend part-way into an extension node\n                    return node, remaining_key\n            elif node_type == NODE_TYPE_LEAF:\n                leaf_key = extract_key(node)\n                if not key_starts_with(leaf_key, remaining_key):\n                    # The trie key and leaf node key branch away from each other, so\n                    # there is no node at the specified key.\n                    return BLANK_NODE, ()  # type: ignore # mypy thinks BLANK_NODE != b\'\' # noqa: E501\n                return node, remaining_key\n            elif node_type == NODE_TYPE_BLANK:\n                return BLANK_NODE, ()  # type: ignore # mypy thinks BLANK_NODE != b\'\'\n            else:\n                raise Exception("Invariant: This shouldn\'t ever happen")\n\n            try:\n                node = self.get_node(next_node_pointer)\n            except KeyError as exc:\n                used_key = trie_key[: len(trie_key) - len(remaining_key)]\n\n                raise MissingTraversalNode(exc.args[0], used_key)\n\n', expect="inconclusive")
+V("c08-branch-hop-consumes-two", "C08", HX, "                next_node_pointer = node[remaining_key[0]]\n                remaining_key = remaining_key[1:]", "                next_node_pointer = node[remaining_key[0]]\n                remaining_key = remaining_key[2:]", rule="ABS1")
+V("c01-branch-hop-consumes-two", "C01", HX, "                next_node_pointer = node[remaining_key[0]]\n                remaining_key = remaining_key[1:]", "                next_node_pointer = node[remaining_key[0]]\n                remaining_key = remaining_key[2:]", rule="ABS1")
